@@ -187,9 +187,23 @@ def all_splits(r, cid0):
     return out
 
 
+def many_tiny(r, cid, nframes, scheme):
+    """hundreds of complete tiny frames reach the receiver in ONE transport read, then the sender is silent (seed C01-4:
+    a per-read frame budget strands the frames beyond the budget in the receive buffer)"""
+    ops = ["O:c", "X:c:-", "N:s", "W:c:1:1", "W:c:1:1", "W:c:1:1", "W:c:1:1", "X:c:-"] + G.drain("s", 1, 0, [100], 5)
+    sizes = [r.choice([1, 1, 1, 2, 3]) for _ in range(nframes)]
+    ops += ["W:c:1:%d" % k for k in sizes]
+    ops.append("X:c:-")                       # everything written so far, as one chunk
+    ops += G.drain("s", 1, 0, [4096], 4)      # the reader must get all of it now, without any further transport activity
+    ops += ["C:c", "X:c:-", "D:s:1:0:100", "T:s", "T:c"]
+    return G.ss_case(cid, scheme, False, ops, "many-tiny-one-read", True)
+
+
 def gen_cases(tier, seed):
     r = rng(seed, "C01")
     cs = []
+    for j, nf in enumerate([70, 130, 300, 600] if tier == "quick" else [65, 70, 100, 130, 200, 300, 600, 1000]):
+        cs.append(many_tiny(r, "mt%d" % j, nf, (2, 4)[j % 2]))
     n = {"quick": 200, "thorough": 4000}[tier]
     kinds = ["mixed"] * 5 + ["single-big", "async-write", "bytewise"]
     for i in range(n):
